@@ -89,6 +89,10 @@ impl Callable for FPtr {
 }
 no_access!(FPtr);
 
+/// An error type that is Send but NOT Sync (the property only asks for Send user futures).
+#[derive(Debug)]
+pub struct ErrNS(pub std::cell::Cell<u8>);
+
 /// NOT Send / Sync: negative control.
 pub struct FRc(pub std::rc::Rc<usize>);
 impl Callable for FRc {
@@ -148,9 +152,12 @@ CONC_USES = ["assert_send", "scoped_thread", "spawn_static"]
 STREAM_USES = ["assert_send", "fnref_to_thread", "scoped_thread"]
 
 
-def user_future(kind, fut):
+ERRS = ["String", "ErrNS"]
+
+
+def user_future(kind, fut, err="String"):
     """closure body given `f` (a reference to the function)."""
-    val = {"plain": "()", "try": "Ok::<(), String>(())", "control": "ControlFlow::<String, ()>::Continue(())"}[kind]
+    val = {"plain": "()", "try": "Ok::<(), %s>(())" % err, "control": "ControlFlow::<%s, ()>::Continue(())" % err}[kind]
     if fut == "async":
         return "{ let v = f.call(); async move { let _ = v; futures::future::ready(()).await; %s } }" % val
     if fut == "boxed":
@@ -158,29 +165,31 @@ def user_future(kind, fut):
     return "{ let _ = f.call(); futures::future::ready(%s) }" % val
 
 
-def conc_call(api, with_opts, kind, fut, g="g"):
+def conc_call(api, with_opts, kind, fut, g="g", err="String"):
     opts = "StreamOpts::new(), " if with_opts else ""
-    return "%s.%s(None, %s|f| %s)" % (g, api, opts, user_future(kind, fut))
+    return "%s.%s(None, %s|f| %s)" % (g, api, opts, user_future(kind, fut, err))
 
 
-def gen_conc(api, mutable, kind, with_opts, ftype, fut, use):
+def gen_conc(api, mutable, kind, with_opts, ftype, fut, use, err="String"):
+    def conc_call_e(api, with_opts, kind, fut, g="g"):
+        return conc_call(api, with_opts, kind, fut, g=g, err=err)
     gty = "&mut FnGraph<%s>" % ftype if mutable else "&FnGraph<%s>" % ftype
     run = None
     if use == "assert_send":
-        body = "    let fut = %s;\n    assert_send(&fut);\n    drop(fut);" % conc_call(api, with_opts, kind, fut)
+        body = "    let fut = %s;\n    assert_send(&fut);\n    drop(fut);" % conc_call_e(api, with_opts, kind, fut)
     elif use == "scoped_thread":
         body = ("    let fut = %s;\n    // the run is created here and awaited on another thread\n"
-                "    std::thread::scope(|s| { s.spawn(move || { let _ = block_on(fut); }); });") % conc_call(api, with_opts, kind, fut)
+                "    std::thread::scope(|s| { s.spawn(move || { let _ = block_on(fut); }); });") % conc_call_e(api, with_opts, kind, fut)
         run = ("pub fn run() -> usize {\n    let counter = Arc::new(AtomicUsize::new(0));\n"
                "    let mut graph = small_graph::<%s>(&counter);\n    prog(&%sgraph);\n    counter.load(Ordering::SeqCst)\n}\n") % (ftype, "mut " if mutable else "")
     else:  # spawn_static: what tokio::spawn demands
         if mutable:
-            inner = "let mut g = g; let _ = %s.await;" % conc_call(api, with_opts, kind, fut, g="g")
+            inner = "let mut g = g; let _ = %s.await;" % conc_call_e(api, with_opts, kind, fut, g="g")
             body = ("    // a task that owns the graph and runs it\n"
                     "    let fut = async move { %s };\n    require_send_static(fut);") % inner
             gty = "FnGraph<%s>" % ftype
         else:
-            inner = "let _ = %s.await;" % conc_call(api, with_opts, kind, fut, g="g")
+            inner = "let _ = %s.await;" % conc_call_e(api, with_opts, kind, fut, g="g")
             body = ("    let g: Arc<FnGraph<%s>> = Arc::new(g);\n"
                     "    let fut = async move { %s };\n    require_send_static(fut);") % (ftype, inner)
             gty = "FnGraph<%s>" % ftype
@@ -236,8 +245,9 @@ def grammar(feature_set):
         progs.append(({"api": api, "ftype": ft, "fut": "-", "use": use}, src, r))
     if feature_set == "default":
         for (api, mutable, kind, w), ft, fut, use in itertools.product(CONC_APIS, FTYPES, FUTS, CONC_USES):
-            src, r = gen_conc(api, mutable, kind, w, ft, fut, use)
-            progs.append(({"api": api, "ftype": ft, "fut": fut, "use": use}, src, r))
+            for err in (ERRS if kind != "plain" else ["-"]):
+                src, r = gen_conc(api, mutable, kind, w, ft, fut, use, err if err != "-" else "String")
+                progs.append(({"api": api, "ftype": ft, "fut": fut, "use": use, "err": err}, src, r))
     return progs
 
 
@@ -353,7 +363,12 @@ def main():
                 if api.startswith("FnGraph"):
                     chosen.extend(lst)
                 else:
-                    chosen.append(lst[(SEED * 7 + k * 13) % len(lst)])
+                    # one program per error type (if the API has one), plus one more
+                    by_err = {}
+                    for x in lst:
+                        by_err.setdefault(x[0].get("err", "-"), []).append(x)
+                    for j, (err, sub) in enumerate(sorted(by_err.items())):
+                        chosen.append(sub[(SEED * 7 + k * 13 + j * 3) % len(sub)])
                     chosen.append(lst[(SEED * 11 + k * 5 + 1) % len(lst)])
             progs = chosen
         modules = []
@@ -443,7 +458,7 @@ def main():
         "coverage": {
             "evaluations": total,
             "distinct_nontrivial": len(nontrivial),
-            "rule": "programs are generated from the grammar API x stored function type {plain struct, Box<dyn Fn+Send+Sync>, Arc<dyn Fn+Send+Sync>, fn pointer} x user future {async block, BoxFuture, future::ready} x use {Send bound, value moved to a scoped thread and awaited there, Send+'static task as a runtime spawn demands, FnRefs sent over a channel to another thread} x feature set {default, interruptible}; every generated program is distinct and non-trivial (each asserts or exercises an auto trait of a library value instantiated with caller types); quick = two programs per API per feature set chosen by VERIF_SEED, thorough = the whole grammar",
+            "rule": "programs are generated from the grammar API x stored function type {plain struct, Box<dyn Fn+Send+Sync>, Arc<dyn Fn+Send+Sync>, fn pointer} x user future {async block, BoxFuture, future::ready} x error type {String, a Send-but-not-Sync type} x use {Send bound, value moved to a scoped thread and awaited there, Send+'static task as a runtime spawn demands, FnRefs sent over a channel to another thread} x feature set {default, interruptible}; every generated program is distinct and non-trivial (each asserts or exercises an auto trait of a library value instantiated with caller types); quick = one program per API and error type plus one more per API, per feature set, chosen by VERIF_SEED, thorough = the whole grammar",
             "samples": samples[:6],
             "exhaustive": tier == "thorough",
             "programs_by_feature_set": by_set,
